@@ -1,10 +1,22 @@
 import EdpVerif.Impl.Handshake
 import EdpVerif.Spec.Handshake
-/-! Helper lemmas for C04: the model's decoders are the Spec parsers (hence never panic), and what one step does. -/
+/-! Helper lemmas for C04: the model's decoders are the Spec parsers (hence never panic); the state machine refines the
+protocol automaton of `Spec.Handshake`; how the automaton can reach `established`. -/
 namespace Edp.Lemmas.Handshake
 open Edp
 open Edp.Impl.Handshake
-open Edp.Spec.Handshake (Op Hist histStep histFrom hist parseAck parseChallenge parseStatus)
+open Edp.Spec.Handshake (Op Phase Conn Side Resp connStep connRun connResps parseAck parseChallenge parseStatus)
+
+/-! ### the regenerated constants are the values the proofs below compute with
+(if handshake.rs changes a tag, these stop compiling: the model would no longer be the Spec's message) -/
+
+@[simp] theorem tagN_eq : tagN = 78 := by decide
+@[simp] theorem tagNOld_eq : tagNOld = 110 := by decide
+@[simp] theorem tagS_eq : tagS = 115 := by decide
+@[simp] theorem tagA_eq : tagA = 97 := by decide
+@[simp] theorem tagR_eq : tagR = 114 := by decide
+@[simp] theorem tagC_eq : tagC = 99 := by decide
+@[simp] theorem version5_eq : version5 = 5 := by decide
 
 theorem rdN_some_of_le : ∀ (k : Nat) (bs : Bytes), k ≤ bs.length → ∃ v r, rdN k bs = some (v, r) := by
   intro k
@@ -88,7 +100,7 @@ theorem decodeChallenge_eq (bs : Bytes) :
         obtain ⟨cr, r3, h4', g4', l3⟩ := getN_of_le 4 r2 (by omega)
         obtain ⟨nl, r4, h2, g2, l4⟩ := getN_of_le 2 r3 (by omega)
         have hnot : ¬ (r.length < 8 + 4 + 4 + 2) := by omega
-        simp only [decodeChallenge, parseChallenge, getU8, ht, h8, h4, h4', h2, g8, g4, g4', g2, HRes.bind_ok]
+        simp only [decodeChallenge, parseChallenge, getU8, tagN_eq, ht, h8, h4, h4', h2, g8, g4, g4', g2, HRes.bind_ok]
         by_cases hn : nl ≤ r4.length
         · by_cases hu : validUtf8 (r4.take nl) = true
           · simp [hnot, hn, hu, sliceTo, convMsg]
@@ -114,7 +126,7 @@ theorem decodeStatus_eq (bs : Bytes) :
   | nil => simp [decodeStatus, parseStatus]
   | cons t r =>
     by_cases ht : t = 115
-    · simp only [decodeStatus, parseStatus, getU8, ht, HRes.bind_ok,
+    · simp only [decodeStatus, parseStatus, getU8, tagS_eq, ht, HRes.bind_ok,
         Spec.Handshake.txtOk, Spec.Handshake.txtOkSimultaneous, Spec.Handshake.txtNok,
         Spec.Handshake.txtNotAllowed, Spec.Handshake.txtAlive]
       by_cases h1 : r = [111, 107]
@@ -156,7 +168,7 @@ theorem decodeSendName_no_panic (bs : Bytes) : decodeSendName bs ≠ .panic := b
         obtain ⟨cr, r2, _, g4, l2⟩ := getN_of_le 4 r1 (by omega)
         obtain ⟨nl, r3, _, g2, l3⟩ := getN_of_le 2 r2 (by omega)
         have hnot : ¬ (r.length < 8 + 4 + 2) := by omega
-        simp only [decodeSendName, getU8, ht, g8, g4, g2, HRes.bind_ok]
+        simp only [decodeSendName, getU8, tagN_eq, ht, g8, g4, g2, HRes.bind_ok]
         by_cases hn : r3.length < nl
         · simp [hnot, hn]
         · have hn' : nl ≤ r3.length := by omega
@@ -165,226 +177,598 @@ theorem decodeSendName_no_panic (bs : Bytes) : decodeSendName bs ≠ .panic := b
 
 /-! ### one step of the state machine -/
 
-/-- the mutable fields other than `state` are what the history says -/
-def Agrees (s : State) (h : Hist) : Prop := s.our = h.our ∧ s.their = h.their ∧ s.neg = h.neg
-
-theorem agrees_init : Agrees State.init Hist.empty := ⟨rfl, rfl, rfl⟩
-
-theorem step_agrees (cfg : Cfg) (dg : Bytes → Nat → Bytes) (s : State) (h : Hist) (op : Op)
-    (ha : Agrees s h) : Agrees (step cfg dg s op).1 (histStep cfg.flags h op) := by
-  obtain ⟨h1, h2, h3⟩ := ha
-  cases op with
-  | beginConnect =>
-    simp only [step, histStep]; split <;> exact ⟨h1, h2, h3⟩
-  | prepareSendName =>
-    simp only [step, histStep]; split <;> exact ⟨h1, h2, h3⟩
-  | handleStatus b =>
-    simp only [step, histStep]; split
-    · split <;> exact ⟨h1, h2, h3⟩
-    · exact ⟨h1, h2, h3⟩
-    · exact ⟨h1, h2, h3⟩
-  | prepareComplement => exact ⟨h1, h2, h3⟩
-  | handleChallenge b c =>
-    simp only [step, histStep, decodeChallenge_eq]
-    cases parseChallenge b with
-    | none => exact ⟨h1, h2, h3⟩
-    | some m => exact ⟨rfl, rfl, rfl⟩
-  | prepareChallengeReply =>
-    simp only [step, histStep]; split <;> exact ⟨h1, h2, h3⟩
-  | handleChallengeAck b =>
-    simp only [step, histStep]; split
-    · split
-      · exact ⟨h1, h2, h3⟩
-      · split <;> exact ⟨h1, h2, h3⟩
-    · exact ⟨h1, h2, h3⟩
-    · exact ⟨h1, h2, h3⟩
-  | disconnect => exact ⟨rfl, rfl, rfl⟩
-
-theorem runFrom_cons (cfg : Cfg) (dg : Bytes → Nat → Bytes) (s : State) (op : Op) (ops : List Op) :
-    runFrom cfg dg s (op :: ops) = runFrom cfg dg (step cfg dg s op).1 ops := rfl
-
-theorem histFrom_cons (f : Nat) (h : Hist) (op : Op) (ops : List Op) :
-    histFrom f h (op :: ops) = histFrom f (histStep f h op) ops := rfl
-
-theorem runFrom_agrees (cfg : Cfg) (dg : Bytes → Nat → Bytes) (ops : List Op) :
-    ∀ (s : State) (h : Hist), Agrees s h → Agrees (runFrom cfg dg s ops) (histFrom cfg.flags h ops) := by
-  induction ops with
-  | nil => intro s h ha; exact ha
-  | cons op rest ih =>
-    intro s h ha
-    rw [runFrom_cons, histFrom_cons]
-    exact ih _ _ (step_agrees cfg dg s h op ha)
-
-theorem run_agrees (cfg : Cfg) (dg : Bytes → Nat → Bytes) (ops : List Op) :
-    Agrees (run cfg dg ops) (hist cfg.flags ops) :=
-  runFrom_agrees cfg dg ops _ _ agrees_init
-
-/-- the only way into `connected`: an ack whose digest is that of the cookie and the current challenge of ours -/
-theorem step_connected (cfg : Cfg) (dg : Bytes → Nat → Bytes) (s : State) (op : Op)
-    (hc : (step cfg dg s op).1.state = .connected) :
-    (s.state = .connected ∧ op.keepsConnected = true) ∨
-    (∃ a c, op = .handleChallengeAck a ∧ s.our = some c ∧ parseAck a = some (dg cfg.cookie c) ∧
-      (step cfg dg s op).2 = .unit) := by
-  cases op with
-  | beginConnect =>
-    simp only [step] at hc
-    split at hc
-    · exact .inl ⟨hc, rfl⟩
-    · simp at hc
-  | prepareSendName =>
-    simp only [step] at hc
-    split at hc <;> simp at hc
-  | handleStatus b =>
-    simp only [step] at hc
-    left
-    refine ⟨?_, rfl⟩
-    split at hc
-    · split at hc <;> exact hc
-    · exact hc
-    · exact hc
-  | prepareComplement => exact .inl ⟨hc, rfl⟩
-  | handleChallenge b c =>
-    simp only [step] at hc
-    split at hc <;> simp at hc
-  | prepareChallengeReply =>
-    simp only [step] at hc
-    split at hc <;> simp at hc
-  | handleChallengeAck b =>
-    simp only [step, decodeAck_eq] at hc ⊢
-    cases hp : parseAck b with
-    | none => simp only [hp] at hc; exact .inl ⟨hc, rfl⟩
-    | some d =>
-      simp only [hp] at hc ⊢
-      cases ho : s.our with
-      | none => simp only [ho] at hc; exact .inl ⟨hc, rfl⟩
-      | some o =>
-        simp only [ho] at hc ⊢
-        by_cases hd : d = dg cfg.cookie o
-        · right
-          exact ⟨b, o, rfl, rfl, by rw [hp, hd], by simp [hd]⟩
-        · simp only [hd, if_false] at hc
-          exact .inl ⟨hc, rfl⟩
-  | disconnect => simp [step] at hc
-
 /-- no call panics -/
 theorem step_no_panic (cfg : Cfg) (dg : Bytes → Nat → Bytes) (s : State) (op : Op) :
     (step cfg dg s op).2 ≠ .panic := by
   cases op with
   | beginConnect => simp only [step]; split <;> simp
   | prepareSendName =>
-    by_cases h : cfg.name.length > 255 <;> simp [step, encodeSendNameOld, h]
+    simp only [step]; split
+    · simp
+    · by_cases h : cfg.name.length > 255 <;> simp [encodeSendNameOld, h]
   | handleStatus b =>
-    simp only [step, decodeStatus_eq]
-    cases parseStatus b with
-    | none => simp
-    | some st => simp only []; split <;> simp
-  | prepareComplement => simp [step]
+    simp only [step, decodeStatus_eq]; split
+    · simp
+    · cases parseStatus b with
+      | none => simp
+      | some st => simp only []; split <;> simp
+  | prepareComplement => simp only [step]; split <;> simp
   | handleChallenge b c =>
-    simp only [step, decodeChallenge_eq]
-    cases parseChallenge b <;> simp
-  | prepareChallengeReply => simp only [step]; split <;> simp
+    simp only [step, decodeChallenge_eq]; split
+    · simp
+    · cases parseChallenge b <;> simp
+  | prepareChallengeReply =>
+    simp only [step]; split
+    · simp
+    · split <;> simp
   | handleChallengeAck b =>
-    simp only [step, decodeAck_eq]
-    cases parseAck b with
-    | none => simp
-    | some d =>
-      simp only []
-      split
-      · simp
-      · split <;> simp
+    simp only [step, decodeAck_eq]; split
+    · simp
+    · cases parseAck b with
+      | none => simp
+      | some d =>
+        simp only []
+        split
+        · simp
+        · split <;> simp
   | disconnect => simp [step]
 
-/-! ### op sequences -/
+/-- a call made in another state than the one it belongs to: `InvalidStateTransition`, nothing changes -/
+def needs : Op → Option ConnState
+  | .beginConnect => some .disconnected
+  | .prepareSendName => some .connecting
+  | .handleStatus _ => some .awaitingStatus
+  | .prepareComplement => some .awaitingChallenge
+  | .handleChallenge _ _ => some .awaitingChallenge
+  | .prepareChallengeReply => some .sendingChallengeReply
+  | .handleChallengeAck _ => some .awaitingChallengeAck
+  | .disconnect => none
 
-/-- from any state whose fields agree with the history: `connected` at the end means either it was connected all
-along, or there is a last successful ack, justified by the history before it -/
-theorem connected_from (cfg : Cfg) (dg : Bytes → Nat → Bytes) (ops : List Op) :
-    ∀ (s : State) (h : Hist), Agrees s h → (runFrom cfg dg s ops).state = .connected →
-    (s.state = .connected ∧ ∀ op ∈ ops, op.keepsConnected = true) ∨
-    ∃ pre a post c, ops = pre ++ Op.handleChallengeAck a :: post ∧
-      (histFrom cfg.flags h pre).our = some c ∧ parseAck a = some (dg cfg.cookie c) ∧
-      ∀ op ∈ post, op.keepsConnected = true := by
-  induction ops with
-  | nil => intro s h _ hc; exact .inl ⟨hc, by simp⟩
-  | cons op rest ih =>
-    intro s h ha hc
-    rw [runFrom_cons] at hc
-    rcases ih _ _ (step_agrees cfg dg s h op ha) hc with ⟨hs', hrest⟩ | ⟨pre, a, post, c, e, hh, hp, hk⟩
-    · rcases step_connected cfg dg s op hs' with ⟨hs, hk⟩ | ⟨a, c, e, ho, hp, _⟩
-      · left
-        refine ⟨hs, ?_⟩
-        intro o ho
-        rcases List.mem_cons.mp ho with rfl | h'
-        · exact hk
-        · exact hrest o h'
-      · right
-        subst e
-        refine ⟨[], a, rest, c, rfl, ?_, hp, hrest⟩
-        show h.our = some c
-        rw [← ha.1]; exact ho
-    · right
-      refine ⟨op :: pre, a, post, c, by simp [e], ?_, hp, hk⟩
-      rw [histFrom_cons]; exact hh
+theorem step_out_of_order (cfg : Cfg) (dg : Bytes → Nat → Bytes) (s : State) (op : Op) (st : ConnState)
+    (hn : needs op = some st) (hs : s.state ≠ st) : step cfg dg s op = (s, .err .invalidTransition) := by
+  cases op <;> simp only [needs, Option.some.injEq, reduceCtorEq] at hn <;> subst hn <;> simp [step, hs]
 
-theorem histStep_quiet (f : Nat) (h : Hist) (op : Op) (hq : op.keepsChallenge = true) : histStep f h op = h := by
+/-- what an error result says about the state afterwards -/
+theorem step_err_state (cfg : Cfg) (dg : Bytes → Nat → Bytes) (s : State) (op : Op) (e : Err)
+    (h : (step cfg dg s op).2 = .err e) :
+    ((e = .invalidTransition ∨ e = .stateMsg) ∧ (step cfg dg s op).1 = s) ∨
+    (e = .nameTooLong ∧ (step cfg dg s op).1.state = .sendingName) ∨
+    ((e = .refused ∨ e = .malformed ∨ e = .auth) ∧ (step cfg dg s op).1.state = .failed) := by
+  obtain ⟨st, our, their, neg⟩ := s
   cases op with
+  | beginConnect => cases st <;> simp [step] at h ⊢ <;> subst_vars <;> simp
+  | prepareSendName =>
+    by_cases hn : cfg.name.length > 255 <;> cases st <;> simp [step, encodeSendNameOld, hn] at h ⊢ <;> subst_vars <;> simp
+  | handleStatus b =>
+    cases hp : parseStatus b with
+    | none => cases st <;> simp [step, decodeStatus_eq, hp] at h ⊢ <;> subst_vars <;> simp
+    | some x =>
+      by_cases hx : (convStatus x).isOk = true <;> cases st <;>
+        simp [step, decodeStatus_eq, hp, hx] at h ⊢ <;> subst_vars <;> simp
+  | prepareComplement => cases st <;> simp [step] at h ⊢ <;> subst_vars <;> simp
   | handleChallenge b c =>
-    simp only [Spec.Handshake.Op.keepsChallenge, Option.isNone_iff_eq_none] at hq
-    simp [histStep, hq]
-  | disconnect => simp [Spec.Handshake.Op.keepsChallenge] at hq
-  | _ => rfl
+    cases hp : parseChallenge b with
+    | none => cases st <;> simp [step, decodeChallenge_eq, hp] at h ⊢ <;> subst_vars <;> simp
+    | some m => cases st <;> simp [step, decodeChallenge_eq, hp] at h ⊢ <;> subst_vars <;> simp
+  | prepareChallengeReply =>
+    cases st <;> cases our <;> cases their <;> simp [step] at h ⊢ <;> subst_vars <;> simp
+  | handleChallengeAck b =>
+    cases hp : parseAck b with
+    | none => cases st <;> simp [step, decodeAck_eq, hp] at h ⊢ <;> subst_vars <;> simp
+    | some d =>
+      cases our with
+      | none => cases st <;> simp [step, decodeAck_eq, hp] at h ⊢ <;> subst_vars <;> simp
+      | some o =>
+        by_cases hd : d = dg cfg.cookie o <;> cases st <;>
+          simp [step, decodeAck_eq, hp, hd] at h ⊢ <;> subst_vars <;> simp
+  | disconnect => simp [step] at h
 
-theorem histFrom_quiet (f : Nat) (ops : List Op) : ∀ (h : Hist), (∀ op ∈ ops, op.keepsChallenge = true) →
-    histFrom f h ops = h := by
+theorem runFrom_cons (cfg : Cfg) (dg : Bytes → Nat → Bytes) (s : State) (op : Op) (ops : List Op) :
+    runFrom cfg dg s (op :: ops) = runFrom cfg dg (step cfg dg s op).1 ops := rfl
+
+theorem runFrom_append (cfg : Cfg) (dg : Bytes → Nat → Bytes) (s : State) (a b : List Op) :
+    runFrom cfg dg s (a ++ b) = runFrom cfg dg (runFrom cfg dg s a) b := by
+  simp [runFrom, List.foldl_append]
+
+/-! ### the state machine refines the protocol automaton -/
+
+def sideOf (cfg : Cfg) : Side := ⟨cfg.name, cfg.cookie, cfg.flags, cfg.creation⟩
+
+/-- the phase a machine state stands for. `SendingName` is only ever left standing when the name was refused
+(the handshake is over); a reply/ack state without the challenge it needs cannot be reached and counts as dead. -/
+def absPhase (s : State) : Phase :=
+  match s.state with
+  | .disconnected => .idle
+  | .connecting => .begun
+  | .sendingName => .dead
+  | .awaitingStatus => .nameSent
+  | .awaitingChallenge => .accepted
+  | .sendingChallengeReply =>
+    match s.our, s.their with
+    | some c, some t => .challenged c t
+    | _, _ => .dead
+  | .awaitingChallengeAck =>
+    match s.our with
+    | some c => .replied c
+    | none => .dead
+  | .connected => .established
+  | .failed => .dead
+
+def abs (s : State) : Conn := ⟨absPhase s, s.neg⟩
+
+/-- a call's result as the automaton sees it (a panic is nothing the automaton can answer) -/
+def respOf : Out → Option Resp
+  | .unit => some .ok
+  | .bytes b => some (.sent b)
+  | .err _ => some .error
+  | .panic => none
+
+theorem abs_init : abs State.init = Conn.empty := rfl
+
+theorem connected_iff (s : State) : s.state = .connected ↔ (abs s).phase = .established := by
+  obtain ⟨st, our, their, neg⟩ := s
+  cases st <;> cases our <;> cases their <;> simp [abs, absPhase]
+
+theorem abs_replied (s : State) (c : Nat) (h : (abs s).phase = .replied c) :
+    s.state = .awaitingChallengeAck ∧ s.our = some c := by
+  obtain ⟨st, our, their, neg⟩ := s
+  cases st <;> cases our <;> cases their <;> simp_all [abs, absPhase]
+
+theorem step_refines (cfg : Cfg) (dg : Bytes → Nat → Bytes) (s : State) (op : Op) :
+    abs (step cfg dg s op).1 = (connStep (sideOf cfg) dg (abs s) op).1 ∧
+    respOf (step cfg dg s op).2 = some (connStep (sideOf cfg) dg (abs s) op).2 := by
+  obtain ⟨st, our, their, neg⟩ := s
+  cases op with
+  | beginConnect =>
+    cases st <;> cases our <;> cases their <;> simp [step, connStep, abs, absPhase, respOf]
+  | prepareSendName =>
+    by_cases hn : cfg.name.length > 255
+    · have hn' : ¬ cfg.name.length ≤ 255 := by omega
+      cases st <;> cases our <;> cases their <;>
+        simp [step, connStep, abs, absPhase, respOf, sideOf, encodeSendNameOld, hn, hn']
+    · have hn' : cfg.name.length ≤ 255 := by omega
+      cases st <;> cases our <;> cases their <;>
+        simp [step, connStep, abs, absPhase, respOf, sideOf, encodeSendNameOld, hn, hn', Spec.Handshake.sendNameOld]
+  | handleStatus b =>
+    cases hp : parseStatus b with
+    | none =>
+      cases st <;> cases our <;> cases their <;>
+        simp [step, connStep, abs, absPhase, respOf, decodeStatus_eq, hp]
+    | some x =>
+      have hx := convStatus_isOk x
+      cases ha : x.accepts <;> cases st <;> cases our <;> cases their <;>
+        simp [step, connStep, abs, absPhase, respOf, decodeStatus_eq, hp, hx, ha]
+  | prepareComplement =>
+    cases st <;> cases our <;> cases their <;>
+      simp [step, connStep, abs, absPhase, respOf, sideOf, Spec.Handshake.complement]
+  | handleChallenge b c =>
+    cases hp : parseChallenge b with
+    | none =>
+      cases st <;> cases our <;> cases their <;>
+        simp [step, connStep, abs, absPhase, respOf, decodeChallenge_eq, hp]
+    | some m =>
+      cases st <;> cases our <;> cases their <;>
+        simp [step, connStep, abs, absPhase, respOf, sideOf, decodeChallenge_eq, hp, convMsg]
+  | prepareChallengeReply =>
+    cases st <;> cases our <;> cases their <;>
+      simp [step, connStep, abs, absPhase, respOf, sideOf, encodeReply, Spec.Handshake.reply]
+  | handleChallengeAck b =>
+    cases hp : parseAck b with
+    | none =>
+      cases st <;> cases our <;> cases their <;>
+        simp [step, connStep, abs, absPhase, respOf, decodeAck_eq, hp]
+    | some d =>
+      cases our with
+      | none =>
+        cases st <;> cases their <;> simp [step, connStep, abs, absPhase, respOf, decodeAck_eq, hp]
+      | some o =>
+        by_cases hd : d = dg cfg.cookie o
+        · cases st <;> cases their <;> simp [step, connStep, abs, absPhase, respOf, sideOf, decodeAck_eq, hp, hd]
+        · cases st <;> cases their <;> simp [step, connStep, abs, absPhase, respOf, sideOf, decodeAck_eq, hp, hd]
+  | disconnect => simp [step, connStep, abs, absPhase, respOf, Conn.empty]
+
+theorem connRun_cons (p : Side) (dg : Bytes → Nat → Bytes) (h : Conn) (op : Op) (ops : List Op) :
+    connRun p dg h (op :: ops) = connRun p dg (connStep p dg h op).1 ops := rfl
+
+theorem connRun_append (p : Side) (dg : Bytes → Nat → Bytes) (h : Conn) (a b : List Op) :
+    connRun p dg h (a ++ b) = connRun p dg (connRun p dg h a) b := by
+  simp [connRun, List.foldl_append]
+
+theorem runFrom_refines (cfg : Cfg) (dg : Bytes → Nat → Bytes) (ops : List Op) :
+    ∀ s, abs (runFrom cfg dg s ops) = connRun (sideOf cfg) dg (abs s) ops := by
   induction ops with
-  | nil => intro h _; rfl
+  | nil => intro s; rfl
   | cons op rest ih =>
-    intro h hq
-    rw [histFrom_cons, histStep_quiet f h op (hq op (by simp))]
-    exact ih h (fun o ho => hq o (by simp [ho]))
+    intro s
+    rw [runFrom_cons, connRun_cons, ih, (step_refines cfg dg s op).1]
 
-theorem histFrom_append (f : Nat) (h : Hist) (a b : List Op) :
-    histFrom f h (a ++ b) = histFrom f (histFrom f h a) b := by
-  simp [histFrom, List.foldl_append]
-
-/-- the history functions unfolded: where the current challenge of ours comes from -/
-theorem histFrom_explicit (f : Nat) (ops : List Op) : ∀ (h : Hist) (c : Nat), (histFrom f h ops).our = some c →
-    (h.our = some c ∧ histFrom f h ops = h ∧ ∀ op ∈ ops, op.keepsChallenge = true) ∨
-    ∃ p1 b m p2, ops = p1 ++ Op.handleChallenge b c :: p2 ∧ parseChallenge b = some m ∧
-      (∀ op ∈ p2, op.keepsChallenge = true) ∧
-      histFrom f h ops = ⟨some c, some m.challenge, some (m.flags &&& f)⟩ := by
+theorem outs_refine (cfg : Cfg) (dg : Bytes → Nat → Bytes) (ops : List Op) :
+    ∀ s, (outsFrom cfg dg s ops).map respOf = (connResps (sideOf cfg) dg (abs s) ops).map some := by
   induction ops with
-  | nil => intro h c hc; exact .inl ⟨hc, rfl, by simp⟩
+  | nil => intro s; rfl
   | cons op rest ih =>
-    intro h c hc
-    rw [histFrom_cons] at hc ⊢
-    rcases ih _ c hc with ⟨h1, h2, h3⟩ | ⟨p1, b, m, p2, e, hp, hq, hh⟩
-    · by_cases hk : op.keepsChallenge = true
-      · left
-        rw [histStep_quiet f h op hk] at h1 h2 ⊢
-        refine ⟨h1, h2, ?_⟩
+    intro s
+    simp only [outsFrom, connResps, List.map_cons]
+    rw [ih, (step_refines cfg dg s op).1, (step_refines cfg dg s op).2]
+
+/-! ### how the automaton gets into a phase: the last entry, then only events that do not lead out -/
+
+section LastEntry
+variable (p : Side) (dg : Bytes → Nat → Bytes)
+
+theorem last_entry {P : Conn → Prop} {leaves : Op → Bool}
+    (hb : ∀ h op, P h → leaves op = true → ¬ P (connStep p dg h op).1) :
+    ∀ (ops : List Op) (h : Conn), P (connRun p dg h ops) →
+      (P h ∧ ∀ o ∈ ops, leaves o = false) ∨
+      ∃ pre op post, ops = pre ++ op :: post ∧ ¬ P (connRun p dg h pre) ∧
+        P (connStep p dg (connRun p dg h pre) op).1 ∧ ∀ o ∈ post, leaves o = false := by
+  intro ops
+  induction ops with
+  | nil => intro h hp; exact .inl ⟨hp, by simp⟩
+  | cons op rest ih =>
+    intro h hp
+    rw [connRun_cons] at hp
+    rcases ih _ hp with ⟨hp', hall⟩ | ⟨pre, o, post, e, hnp, hpo, hall⟩
+    · by_cases hph : P h
+      · cases hl : leaves op with
+        | true => exact absurd hp' (hb h op hph hl)
+        | false =>
+          left
+          refine ⟨hph, ?_⟩
+          intro o ho
+          rcases List.mem_cons.mp ho with rfl | h'
+          · exact hl
+          · exact hall o h'
+      · right
+        exact ⟨[], op, rest, rfl, hph, hp', hall⟩
+    · right
+      exact ⟨op :: pre, o, post, by simp [e], hnp, hpo, hall⟩
+
+end LastEntry
+
+theorem isDisconnect_eq (o : Op) : o.isDisconnect = true ↔ o = .disconnect := by
+  cases o <;> simp [Op.isDisconnect]
+
+/-- any event list ends in a stretch without `disconnect`, preceded by nothing or by a `disconnect` -/
+theorem split_last_disconnect (l : List Op) :
+    ∃ a b, l = a ++ b ∧ (a = [] ∨ ∃ q, a = q ++ [Op.disconnect]) ∧ ∀ o ∈ b, o.isDisconnect = false := by
+  induction l with
+  | nil => exact ⟨[], [], rfl, .inl rfl, by simp⟩
+  | cons x t ih =>
+    obtain ⟨a, b, e, ha, hb⟩ := ih
+    rcases ha with rfl | ⟨q, rfl⟩
+    · cases hx : x.isDisconnect with
+      | true =>
+        have : x = .disconnect := (isDisconnect_eq x).mp hx
+        subst this
+        exact ⟨[.disconnect], b, by simp [e], .inr ⟨[], rfl⟩, hb⟩
+      | false =>
+        refine ⟨[], x :: b, by simp [e], .inl rfl, ?_⟩
         intro o ho
         rcases List.mem_cons.mp ho with rfl | h'
-        · exact hk
-        · exact h3 o h'
-      · right
-        cases op with
-        | disconnect => simp [histStep, Hist.empty] at h1
-        | handleChallenge b c0 =>
-          cases hp : parseChallenge b with
-          | none => simp [Spec.Handshake.Op.keepsChallenge, hp] at hk
-          | some m =>
-            simp only [histStep, hp] at h1 h2 ⊢
-            simp only [Option.some.injEq] at h1
-            subst h1
-            exact ⟨[], b, m, rest, rfl, hp, h3, h2⟩
-        | beginConnect => simp [Spec.Handshake.Op.keepsChallenge] at hk
-        | prepareSendName => simp [Spec.Handshake.Op.keepsChallenge] at hk
-        | handleStatus _ => simp [Spec.Handshake.Op.keepsChallenge] at hk
-        | prepareComplement => simp [Spec.Handshake.Op.keepsChallenge] at hk
-        | prepareChallengeReply => simp [Spec.Handshake.Op.keepsChallenge] at hk
-        | handleChallengeAck _ => simp [Spec.Handshake.Op.keepsChallenge] at hk
-    · right
-      exact ⟨op :: p1, b, m, p2, by simp [e], hp, hq, hh⟩
+        · exact hx
+        · exact hb o h'
+    · exact ⟨x :: (q ++ [.disconnect]), b, by simp [e], .inr ⟨x :: q, by simp⟩, hb⟩
+
+section Phases
+variable (p : Side) (dg : Bytes → Nat → Bytes)
+
+/-! per phase: events that are not the phase's way out keep it (`stay`), the way out leaves it (`exit`), and the only
+way in (`enter`) -/
+
+theorem stay_idle (h : Conn) (op : Op) (hp : h.phase = .idle) (hl : op.isBegin = false) :
+    (connStep p dg h op).1.phase = .idle := by
+  obtain ⟨ph, ng⟩ := h
+  simp only at hp; subst hp
+  cases op <;> simp_all [connStep, Op.isBegin, Conn.empty]
+
+theorem exit_idle (h : Conn) (op : Op) (hp : h.phase = .idle) (hl : op.isBegin = true) :
+    ¬ (connStep p dg h op).1.phase = .idle := by
+  obtain ⟨ph, ng⟩ := h
+  simp only at hp; subst hp
+  cases op <;> simp_all [connStep, Op.isBegin]
+
+theorem enter_idle (h : Conn) (op : Op) (hn : ¬ h.phase = .idle) (hp : (connStep p dg h op).1.phase = .idle) :
+    op = .disconnect := by
+  obtain ⟨ph, ng⟩ := h
+  cases op <;> cases ph <;> simp_all [connStep] <;> (repeat' split at hp) <;> simp_all
+
+theorem stay_begun (h : Conn) (op : Op) (hp : h.phase = .begun) (hl : (op.isSendName || op.isDisconnect) = false) :
+    (connStep p dg h op).1.phase = .begun := by
+  obtain ⟨ph, ng⟩ := h
+  simp only at hp; subst hp
+  cases op <;> simp_all [connStep, Op.isSendName, Op.isDisconnect]
+
+theorem exit_begun (h : Conn) (op : Op) (hp : h.phase = .begun) (hl : (op.isSendName || op.isDisconnect) = true) :
+    ¬ (connStep p dg h op).1.phase = .begun := by
+  obtain ⟨ph, ng⟩ := h
+  simp only at hp; subst hp
+  cases op <;> simp_all [connStep, Op.isSendName, Op.isDisconnect, Conn.empty] <;> split <;> simp
+
+theorem enter_begun (h : Conn) (op : Op) (hn : ¬ h.phase = .begun) (hp : (connStep p dg h op).1.phase = .begun) :
+    op = .beginConnect ∧ h.phase = .idle := by
+  obtain ⟨ph, ng⟩ := h
+  cases op <;> cases ph <;> simp_all [connStep, Conn.empty] <;> (repeat' split at hp) <;> simp_all
+
+theorem stay_nameSent (h : Conn) (op : Op) (hp : h.phase = .nameSent) (hl : (op.isStatus || op.isDisconnect) = false) :
+    (connStep p dg h op).1.phase = .nameSent := by
+  obtain ⟨ph, ng⟩ := h
+  simp only at hp; subst hp
+  cases op <;> simp_all [connStep, Op.isStatus, Op.isDisconnect]
+
+theorem exit_nameSent (h : Conn) (op : Op) (hp : h.phase = .nameSent) (hl : (op.isStatus || op.isDisconnect) = true) :
+    ¬ (connStep p dg h op).1.phase = .nameSent := by
+  obtain ⟨ph, ng⟩ := h
+  simp only at hp; subst hp
+  cases op <;> simp_all [connStep, Op.isStatus, Op.isDisconnect, Conn.empty] <;> (repeat' split) <;> simp
+
+theorem enter_nameSent (h : Conn) (op : Op) (hn : ¬ h.phase = .nameSent)
+    (hp : (connStep p dg h op).1.phase = .nameSent) :
+    op = .prepareSendName ∧ p.name.length ≤ 255 ∧ h.phase = .begun := by
+  obtain ⟨ph, ng⟩ := h
+  cases op <;> cases ph <;> simp_all [connStep, Conn.empty] <;> (repeat' split at hp) <;> simp_all
+
+theorem stay_accepted (h : Conn) (op : Op) (hp : h.phase = .accepted) (hl : (op.isChallenge || op.isDisconnect) = false) :
+    (connStep p dg h op).1.phase = .accepted := by
+  obtain ⟨ph, ng⟩ := h
+  simp only at hp; subst hp
+  cases op <;> simp_all [connStep, Op.isChallenge, Op.isDisconnect]
+
+theorem exit_accepted (h : Conn) (op : Op) (hp : h.phase = .accepted) (hl : (op.isChallenge || op.isDisconnect) = true) :
+    ¬ (connStep p dg h op).1.phase = .accepted := by
+  obtain ⟨ph, ng⟩ := h
+  simp only at hp; subst hp
+  cases op <;> simp_all [connStep, Op.isChallenge, Op.isDisconnect, Conn.empty] <;> (repeat' split) <;> simp
+
+theorem enter_accepted (h : Conn) (op : Op) (hn : ¬ h.phase = .accepted)
+    (hp : (connStep p dg h op).1.phase = .accepted) :
+    ∃ b st, op = .handleStatus b ∧ parseStatus b = some st ∧ st.accepts = true ∧ h.phase = .nameSent := by
+  obtain ⟨ph, ng⟩ := h
+  cases op <;> cases ph <;> simp_all [connStep, Conn.empty] <;> (repeat' split at hp) <;> simp_all
+
+theorem stay_challenged (c t : Nat) (h : Conn) (op : Op) (hp : h.phase = .challenged c t)
+    (hl : (op.isReply || op.isDisconnect) = false) : (connStep p dg h op).1.phase = .challenged c t := by
+  obtain ⟨ph, ng⟩ := h
+  simp only at hp; subst hp
+  cases op <;> simp_all [connStep, Op.isReply, Op.isDisconnect]
+
+theorem exit_challenged (c t : Nat) (h : Conn) (op : Op) (hp : h.phase = .challenged c t)
+    (hl : (op.isReply || op.isDisconnect) = true) : ¬ (connStep p dg h op).1.phase = .challenged c t := by
+  obtain ⟨ph, ng⟩ := h
+  simp only at hp; subst hp
+  cases op <;> simp_all [connStep, Op.isReply, Op.isDisconnect, Conn.empty]
+
+theorem enter_challenged (c t : Nat) (h : Conn) (op : Op) (hn : ¬ h.phase = .challenged c t)
+    (hp : (connStep p dg h op).1.phase = .challenged c t) :
+    ∃ b m, op = .handleChallenge b c ∧ parseChallenge b = some m ∧ m.challenge = t ∧ h.phase = .accepted := by
+  obtain ⟨ph, ng⟩ := h
+  cases op <;> cases ph <;> simp_all [connStep, Conn.empty] <;> (repeat' split at hp) <;> simp_all
+
+theorem stay_replied (c : Nat) (h : Conn) (op : Op) (hp : h.phase = .replied c)
+    (hl : (op.isAck || op.isDisconnect) = false) : (connStep p dg h op).1.phase = .replied c := by
+  obtain ⟨ph, ng⟩ := h
+  simp only at hp; subst hp
+  cases op <;> simp_all [connStep, Op.isAck, Op.isDisconnect]
+
+theorem exit_replied (c : Nat) (h : Conn) (op : Op) (hp : h.phase = .replied c)
+    (hl : (op.isAck || op.isDisconnect) = true) : ¬ (connStep p dg h op).1.phase = .replied c := by
+  obtain ⟨ph, ng⟩ := h
+  simp only at hp; subst hp
+  cases op <;> simp_all [connStep, Op.isAck, Op.isDisconnect, Conn.empty] <;> split <;> simp
+
+theorem enter_replied (c : Nat) (h : Conn) (op : Op) (hn : ¬ h.phase = .replied c)
+    (hp : (connStep p dg h op).1.phase = .replied c) :
+    op = .prepareChallengeReply ∧ ∃ t, h.phase = .challenged c t := by
+  obtain ⟨ph, ng⟩ := h
+  cases op <;> cases ph <;> simp_all [connStep, Conn.empty] <;> (repeat' split at hp) <;> simp_all
+
+theorem stay_established (h : Conn) (op : Op) (hp : h.phase = .established) (hl : op.isDisconnect = false) :
+    (connStep p dg h op).1.phase = .established := by
+  obtain ⟨ph, ng⟩ := h
+  simp only at hp; subst hp
+  cases op <;> simp_all [connStep, Op.isDisconnect]
+
+theorem exit_established (h : Conn) (op : Op) (hp : h.phase = .established) (hl : op.isDisconnect = true) :
+    ¬ (connStep p dg h op).1.phase = .established := by
+  obtain ⟨ph, ng⟩ := h
+  simp only at hp; subst hp
+  cases op <;> simp_all [connStep, Op.isDisconnect, Conn.empty]
+
+theorem enter_established (h : Conn) (op : Op) (hn : ¬ h.phase = .established)
+    (hp : (connStep p dg h op).1.phase = .established) :
+    ∃ a c, op = .handleChallengeAck a ∧ h.phase = .replied c ∧ parseAck a = some (dg p.cookie c) := by
+  obtain ⟨ph, ng⟩ := h
+  cases op <;> cases ph <;> simp_all [connStep, Conn.empty] <;> (repeat' split at hp) <;> simp_all
+
+/-! the same with the negotiated set carried along (it is fixed by the challenge and kept until `disconnect`) -/
+
+theorem enter_challenged_neg (c t : Nat) (ng : Option Nat) (h : Conn) (op : Op)
+    (hn : ¬ (h.phase = .challenged c t ∧ h.neg = ng))
+    (hp : (connStep p dg h op).1.phase = .challenged c t ∧ (connStep p dg h op).1.neg = ng) :
+    ∃ b m, op = .handleChallenge b c ∧ parseChallenge b = some m ∧ m.challenge = t ∧
+      ng = some (m.flags &&& p.flags) ∧ h.phase = .accepted := by
+  obtain ⟨ph, ng'⟩ := h
+  cases op <;> cases ph <;> simp_all [connStep, Conn.empty] <;> (repeat' split at hp) <;> simp_all
+
+theorem enter_replied_neg (c : Nat) (ng : Option Nat) (h : Conn) (op : Op)
+    (hn : ¬ (h.phase = .replied c ∧ h.neg = ng))
+    (hp : (connStep p dg h op).1.phase = .replied c ∧ (connStep p dg h op).1.neg = ng) :
+    op = .prepareChallengeReply ∧ ∃ t, h.phase = .challenged c t ∧ h.neg = ng := by
+  obtain ⟨ph, ng'⟩ := h
+  cases op <;> cases ph <;> simp_all [connStep, Conn.empty] <;> (repeat' split at hp) <;> simp_all
+
+theorem enter_established_neg (ng : Option Nat) (h : Conn) (op : Op)
+    (hn : ¬ (h.phase = .established ∧ h.neg = ng))
+    (hp : (connStep p dg h op).1.phase = .established ∧ (connStep p dg h op).1.neg = ng) :
+    ∃ a c, op = .handleChallengeAck a ∧ h.phase = .replied c ∧ h.neg = ng ∧ parseAck a = some (dg p.cookie c) := by
+  obtain ⟨ph, ng'⟩ := h
+  cases op <;> cases ph <;> simp_all [connStep, Conn.empty] <;> (repeat' split at hp) <;> simp_all
+
+end Phases
+
+/-- THE shape of every event sequence that ends `established`, from a fresh connecting side: after the last
+`disconnect` (if any) there is a `beginConnect`, then the first `prepareSendName` after it (name of at most 255 bytes),
+then the first `handleStatus` after that (accepting), the first `handleChallenge` after that (well-formed; `c` is the
+challenge this side generated in that call), the first `prepareChallengeReply` after that, the first
+`handleChallengeAck` after that — carrying the digest of the cookie and `c` — and no `disconnect` since. -/
+theorem established_decomp (p : Side) (dg : Bytes → Nat → Bytes) (ops : List Op)
+    (he : (connRun p dg Conn.empty ops).phase = .established) :
+    ∃ pre g0 g1 g2 sb g3 cb c g4 g5 ab post,
+      ops = pre ++ g0 ++ Op.beginConnect :: g1 ++ Op.prepareSendName :: g2 ++ Op.handleStatus sb :: g3 ++
+        Op.handleChallenge cb c :: g4 ++ Op.prepareChallengeReply :: g5 ++ Op.handleChallengeAck ab :: post ∧
+      (pre = [] ∨ ∃ q, pre = q ++ [Op.disconnect]) ∧
+      (∀ o ∈ g0, o.isBegin = false ∧ o.isDisconnect = false) ∧
+      (∀ o ∈ g1, (o.isSendName || o.isDisconnect) = false) ∧
+      (∀ o ∈ g2, (o.isStatus || o.isDisconnect) = false) ∧
+      (∀ o ∈ g3, (o.isChallenge || o.isDisconnect) = false) ∧
+      (∀ o ∈ g4, (o.isReply || o.isDisconnect) = false) ∧
+      (∀ o ∈ g5, (o.isAck || o.isDisconnect) = false) ∧
+      (∀ o ∈ post, o.isDisconnect = false) ∧
+      p.name.length ≤ 255 ∧
+      (∃ st, parseStatus sb = some st ∧ st.accepts = true) ∧
+      (∃ m, parseChallenge cb = some m ∧ (connRun p dg Conn.empty ops).neg = some (m.flags &&& p.flags)) ∧
+      parseAck ab = some (dg p.cookie c) := by
+  generalize hng : (connRun p dg Conn.empty ops).neg = ng
+  have he' : (connRun p dg Conn.empty ops).phase = .established ∧ (connRun p dg Conn.empty ops).neg = ng := ⟨he, hng⟩
+  -- established: the last entry is an ack accepted while `replied c`
+  rcases last_entry p dg (P := fun h => h.phase = .established ∧ h.neg = ng) (leaves := Op.isDisconnect)
+      (fun h op hp hl hq => exit_established p dg h op hp.1 hl hq.1) ops Conn.empty he'
+    with ⟨h0, _⟩ | ⟨p6, o6, post, e6, hn6, hp6, hpost⟩
+  · simp [Conn.empty] at h0
+  obtain ⟨ab, c, rfl, hr5, hng5, hack⟩ := enter_established_neg p dg ng _ _ hn6 hp6
+  -- replied c: the last entry is the reply, made while `challenged c t`
+  rcases last_entry p dg (P := fun h => h.phase = .replied c ∧ h.neg = ng) (leaves := fun o => o.isAck || o.isDisconnect)
+      (fun h op hp hl hq => exit_replied p dg c h op hp.1 hl hq.1) p6 Conn.empty ⟨hr5, hng5⟩
+    with ⟨h0, _⟩ | ⟨p5, o5, g5, e5, hn5, hp5, hg5⟩
+  · simp [Conn.empty] at h0
+  obtain ⟨rfl, t, hr4, hng4⟩ := enter_replied_neg p dg c ng _ _ hn5 hp5
+  -- challenged c t: the last entry is a well-formed challenge, handled while `accepted`
+  rcases last_entry p dg (P := fun h => h.phase = .challenged c t ∧ h.neg = ng)
+      (leaves := fun o => o.isReply || o.isDisconnect)
+      (fun h op hp hl hq => exit_challenged p dg c t h op hp.1 hl hq.1) p5 Conn.empty ⟨hr4, hng4⟩
+    with ⟨h0, _⟩ | ⟨p4, o4, g4, e4, hn4, hp4, hg4⟩
+  · simp [Conn.empty] at h0
+  obtain ⟨cb, m, rfl, hm, _, hngm, hr3⟩ := enter_challenged_neg p dg c t ng _ _ hn4 hp4
+  -- accepted: the last entry is an accepting status, handled while `nameSent`
+  rcases last_entry p dg (P := fun h => h.phase = .accepted) (leaves := fun o => o.isChallenge || o.isDisconnect)
+      (exit_accepted p dg) p4 Conn.empty hr3 with ⟨h0, _⟩ | ⟨p3, o3, g3, e3, hn3, hp3, hg3⟩
+  · simp [Conn.empty] at h0
+  obtain ⟨sb, st, rfl, hst, hacc, hr2⟩ := enter_accepted p dg _ _ hn3 hp3
+  -- nameSent: the last entry is the send_name, made while `begun`
+  rcases last_entry p dg (P := fun h => h.phase = .nameSent) (leaves := fun o => o.isStatus || o.isDisconnect)
+      (exit_nameSent p dg) p3 Conn.empty hr2 with ⟨h0, _⟩ | ⟨p2, o2, g2, e2, hn2, hp2, hg2⟩
+  · simp [Conn.empty] at h0
+  obtain ⟨rfl, hname, hr1⟩ := enter_nameSent p dg _ _ hn2 hp2
+  -- begun: the last entry is begin_connect, made while `idle`
+  rcases last_entry p dg (P := fun h => h.phase = .begun) (leaves := fun o => o.isSendName || o.isDisconnect)
+      (exit_begun p dg) p2 Conn.empty hr1 with ⟨h0, _⟩ | ⟨p1, o1, g1, e1, hn1, hp1, hg1⟩
+  · simp [Conn.empty] at h0
+  obtain ⟨rfl, hr0⟩ := enter_begun p dg _ _ hn1 hp1
+  -- idle: from the start, or entered by a disconnect; no begin_connect since
+  have hidle : ∃ pre g0, p1 = pre ++ g0 ∧ (pre = [] ∨ ∃ q, pre = q ++ [Op.disconnect]) ∧
+      ∀ o ∈ g0, o.isBegin = false ∧ o.isDisconnect = false := by
+    rcases last_entry p dg (P := fun h => h.phase = .idle) (leaves := Op.isBegin)
+        (exit_idle p dg) p1 Conn.empty hr0 with ⟨_, hall⟩ | ⟨p0, o0, g0', e0, hn0, hp0, hg0⟩
+    · obtain ⟨a, b, e, ha, hb⟩ := split_last_disconnect p1
+      refine ⟨a, b, e, ha, fun o ho => ⟨hall o (by rw [e]; simp [ho]), hb o ho⟩⟩
+    · have hd := enter_idle p dg _ _ hn0 hp0
+      subst hd
+      obtain ⟨a, b, e, ha, hb⟩ := split_last_disconnect g0'
+      refine ⟨p0 ++ Op.disconnect :: a, b, by simp [e0, e], ?_, fun o ho => ⟨hg0 o (by rw [e]; simp [ho]), hb o ho⟩⟩
+      rcases ha with rfl | ⟨q, rfl⟩
+      · exact .inr ⟨p0, by simp⟩
+      · exact .inr ⟨p0 ++ Op.disconnect :: q, by simp⟩
+  obtain ⟨pre, g0, e0, hpre, hg0⟩ := hidle
+  refine ⟨pre, g0, g1, g2, sb, g3, cb, c, g4, g5, ab, post, ?_, hpre, hg0, hg1, hg2, hg3, hg4, hg5, hpost, hname,
+    ⟨st, hst, hacc⟩, ⟨m, hm, hngm⟩, hack⟩
+  subst e0 e1 e2 e3 e4 e5 e6
+  simp [List.append_assoc]
+
+section Converse
+variable (p : Side) (dg : Bytes → Nat → Bytes)
+
+theorem run_stay {P : Conn → Prop} {leaves : Op → Bool}
+    (ha : ∀ h op, P h → leaves op = false → P (connStep p dg h op).1) :
+    ∀ (ops : List Op) (h : Conn), P h → (∀ o ∈ ops, leaves o = false) → P (connRun p dg h ops) := by
+  intro ops
+  induction ops with
+  | nil => intro h hp _; exact hp
+  | cons op rest ih =>
+    intro h hp hall
+    rw [connRun_cons]
+    exact ih _ (ha h op hp (hall op (by simp))) (fun o ho => hall o (by simp [ho]))
+
+theorem fwd_begin (h : Conn) (hp : h.phase = .idle) : (connStep p dg h .beginConnect).1.phase = .begun := by
+  obtain ⟨ph, ng⟩ := h
+  simp only at hp; subst hp; simp [connStep]
+
+theorem fwd_name (h : Conn) (hp : h.phase = .begun) (hn : p.name.length ≤ 255) :
+    (connStep p dg h .prepareSendName).1.phase = .nameSent := by
+  obtain ⟨ph, ng⟩ := h
+  simp only at hp; subst hp; simp [connStep, hn]
+
+theorem fwd_status (h : Conn) (hp : h.phase = .nameSent) (sb : Bytes) (st : Spec.Handshake.Status)
+    (hs : parseStatus sb = some st) (ha : st.accepts = true) :
+    (connStep p dg h (.handleStatus sb)).1.phase = .accepted := by
+  obtain ⟨ph, ng⟩ := h
+  simp only at hp; subst hp; simp [connStep, hs, ha]
+
+theorem fwd_challenge (h : Conn) (hp : h.phase = .accepted) (cb : Bytes) (c : Nat) (m : Spec.Handshake.ChallengeMsg)
+    (hm : parseChallenge cb = some m) :
+    (connStep p dg h (.handleChallenge cb c)).1.phase = .challenged c m.challenge := by
+  obtain ⟨ph, ng⟩ := h
+  simp only at hp; subst hp; simp [connStep, hm]
+
+theorem fwd_reply (h : Conn) (c t : Nat) (hp : h.phase = .challenged c t) :
+    (connStep p dg h .prepareChallengeReply).1.phase = .replied c := by
+  obtain ⟨ph, ng⟩ := h
+  simp only at hp; subst hp; simp [connStep]
+
+theorem fwd_ack (h : Conn) (c : Nat) (hp : h.phase = .replied c) (ab : Bytes) (ha : parseAck ab = some (dg p.cookie c)) :
+    (connStep p dg h (.handleChallengeAck ab)).1.phase = .established := by
+  obtain ⟨ph, ng⟩ := h
+  simp only at hp; subst hp; simp [connStep, ha]
+
+/-- the converse of `established_decomp`: every event sequence of that shape ends `established` -/
+theorem established_of_shape (pre g0 g1 g2 g3 : List Op) (sbytes cbytes : Bytes) (c : Nat)
+    (g4 g5 : List Op) (ab : Bytes) (post : List Op)
+    (hpre : pre = [] ∨ ∃ q, pre = q ++ [Op.disconnect])
+    (hg0 : ∀ o ∈ g0, o.isBegin = false ∧ o.isDisconnect = false)
+    (hg1 : ∀ o ∈ g1, (o.isSendName || o.isDisconnect) = false)
+    (hg2 : ∀ o ∈ g2, (o.isStatus || o.isDisconnect) = false)
+    (hg3 : ∀ o ∈ g3, (o.isChallenge || o.isDisconnect) = false)
+    (hg4 : ∀ o ∈ g4, (o.isReply || o.isDisconnect) = false)
+    (hg5 : ∀ o ∈ g5, (o.isAck || o.isDisconnect) = false)
+    (hpost : ∀ o ∈ post, o.isDisconnect = false)
+    (hname : p.name.length ≤ 255)
+    (hst : ∃ st, parseStatus sbytes = some st ∧ st.accepts = true)
+    (hm : ∃ m, parseChallenge cbytes = some m)
+    (hack : parseAck ab = some (dg p.cookie c)) :
+    (connRun p dg Conn.empty (pre ++ g0 ++ Op.beginConnect :: g1 ++ Op.prepareSendName :: g2 ++
+      Op.handleStatus sbytes :: g3 ++ Op.handleChallenge cbytes c :: g4 ++ Op.prepareChallengeReply :: g5 ++
+      Op.handleChallengeAck ab :: post)).phase = .established := by
+  obtain ⟨st, hs, hacc⟩ := hst
+  obtain ⟨m, hm⟩ := hm
+  have h0 : (connRun p dg Conn.empty pre).phase = .idle := by
+    rcases hpre with rfl | ⟨q, rfl⟩
+    · rfl
+    · simp [connRun, connStep, Conn.empty]
+  have h0' := run_stay p dg (P := fun h => h.phase = .idle) (leaves := Op.isBegin) (stay_idle p dg) g0 _ h0
+    (fun o ho => (hg0 o ho).1)
+  have h1 := fwd_begin p dg _ h0'
+  have h1' := run_stay p dg (P := fun h => h.phase = .begun) (stay_begun p dg) g1 _ h1 hg1
+  have h2 := fwd_name p dg _ h1' hname
+  have h2' := run_stay p dg (P := fun h => h.phase = .nameSent) (stay_nameSent p dg) g2 _ h2 hg2
+  have h3 := fwd_status p dg _ h2' sbytes st hs hacc
+  have h3' := run_stay p dg (P := fun h => h.phase = .accepted) (stay_accepted p dg) g3 _ h3 hg3
+  have h4 := fwd_challenge p dg _ h3' cbytes c m hm
+  have h4' := run_stay p dg (P := fun h => h.phase = .challenged c m.challenge) (stay_challenged p dg c m.challenge) g4 _ h4 hg4
+  have h5 := fwd_reply p dg _ c m.challenge h4'
+  have h5' := run_stay p dg (P := fun h => h.phase = .replied c) (stay_replied p dg c) g5 _ h5 hg5
+  have h6 := fwd_ack p dg _ c h5' ab hack
+  have h6' := run_stay p dg (P := fun h => h.phase = .established) (stay_established p dg) post _ h6 hpost
+  simpa [connRun_append, connRun_cons, List.append_assoc] using h6'
+
+end Converse
 
 end Edp.Lemmas.Handshake
